@@ -16,6 +16,7 @@ import (
 func genStoreCfg(r *core.Rand, c *stCase) {
 	c.Vec = []string{"flat", "flat", "hnsw", "ivf", "none"}[r.Intn(5)]
 	c.Text, c.Meta = r.Chance(0.6), r.Chance(0.6)
+	c.Cosine = c.Vec != "none" && r.Chance(0.3)
 	if c.Vec == "none" && !c.Text && !c.Meta {
 		c.Text = true
 	}
@@ -57,7 +58,21 @@ func probes(c *stCase) []stCmd {
 		out = append(out, stCmd{Op: "search", Q: "txt"})
 	}
 	if c.Meta {
-		out = append(out, stCmd{Op: "search", Q: "md"})
+		out = append(out, stCmd{Op: "search", Q: "md"}, stCmd{Op: "search", Q: "mdg"}, stCmd{Op: "search", Q: "mdgf"})
+	}
+	return out
+}
+
+// kProbes: every modality with a huge k, then with k = exactly the size of that answer ("large
+// enough" in the property's sense) and with one more.
+func kProbes(c *stCase) []stCmd {
+	var out []stCmd
+	for _, p := range probes(c) {
+		out = append(out, p)
+		if p.Q == "mdg" || p.Q == "mdgf" {
+			continue
+		}
+		out = append(out, stCmd{Op: "search", Q: p.Q, K: 1}, stCmd{Op: "search", Q: p.Q, K: 2})
 	}
 	return out
 }
@@ -115,7 +130,7 @@ func genRestart(r *core.Rand, tier string) *stCase {
 	// the final reopen: everything acknowledged before the last Close must be found
 	c.Cmds = append(c.Cmds, stCmd{Op: "open"})
 	c.Cmds = append(c.Cmds, probes(c)...)
-	c.Cmds = append(c.Cmds, probes(c)...)
+	c.Cmds = append(c.Cmds, kProbes(c)...)
 	c.Cmds = append(c.Cmds, stCmd{Op: "state"}, stCmd{Op: "close"}, stCmd{Op: "ls"})
 	return c
 }
@@ -152,7 +167,7 @@ func nonTrivialRestart(lines, replies []string) bool {
 func init() {
 	register(&core.Typed[stCase]{
 		StreamName: "restart", Prop: "C09",
-		RuleText: "1..4 sessions of (open with freshly constructed templates; (add* [Flush])*; Close) plus a final reopen, memtable limits from below one document to the 100 MB default, templates flat/hnsw/trained ivf/none x text x metadata, occasional background flush steps and (a quarter of the cases) compactions run to completion; vector, text and metadata probes after opens and before closes; directory listing after every Close; a case is non-trivial when a probe in a session >= 2 had to find documents acknowledged in an earlier session (must>0) and the implementation returned a non-empty answer or the known defect was reproduced; distinct = distinct request streams",
+		RuleText: "1..4 sessions of (open with freshly constructed templates; (add* [Flush])*; Close) plus a final reopen, memtable limits from below one document to the 100 MB default, templates flat/hnsw/trained ivf/none x text x metadata, occasional background flush steps and (a quarter of the cases) compactions run to completion; vector, text and metadata probes after opens and before closes (metadata also through filter GROUPS alone and groups + filters; after the final reopen every modality also with k = exactly the size of the previous answer and with one more); directory listing after every Close; a case is non-trivial when a probe in a session >= 2 had to find documents acknowledged in an earlier session (must>0) and the implementation returned a non-empty answer or the known defect was reproduced; distinct = distinct request streams",
 		NCases: func(tier string) int {
 			if tier == "thorough" {
 				return 1500
